@@ -142,6 +142,15 @@ func H_C02_lookup() {
 	verif.Assert(c.Merge(parts[0], opts...) == nil, "C02/merge accepted")
 	verif.Assert(c.Merge(parts[1], opts...) == nil, "C02/merge accepted")
 
+	// the reading call may use another path separator than the one the configuration was built with:
+	// the names inside ${...} were written for the build-time separator
+	listPath := "lst.1.w"
+	if verif.Choice("read-sep", 2) == 1 {
+		ropts := []ucfg.Option{ucfg.PathSep("/")}
+		ropts = append(ropts, opts[1:]...)
+		opts = ropts
+		listPath = "lst/1/w"
+	}
 	label := func(s string) string { return "C02/" + s + "/form" + itoa(form) }
 	switch verif.Choice("read", 5) {
 	case 3, 4:
@@ -151,7 +160,7 @@ func H_C02_lookup() {
 		if verif.Choice("list-route", 2) == 0 {
 			got, err = c.String("lst", 0, opts...)
 		} else {
-			got, err = c.String("lst.1.w", -1, opts...)
+			got, err = c.String(listPath, -1, opts...)
 		}
 		if wantErr {
 			verif.Assert(err != nil, label("read inside a list fails when the reference cannot be resolved"))
